@@ -50,6 +50,27 @@ fn glob(p: &[u8], s: &[u8]) -> bool {
     pi == p.len()
 }
 
+/// canonical spelling of re-exported paths (rustc prints the shortest visible path per crate)
+fn norm_name(n: &str) -> String {
+    let mut out = n.replace("darling_core::", "darling::");
+    let pat = "syn::Ident";
+    let mut res = String::new();
+    let mut rest = out.as_str();
+    while let Some(i) = rest.find(pat) {
+        let after = rest[i + pat.len()..].chars().next();
+        res.push_str(&rest[..i]);
+        if after.map_or(true, |c| !(c.is_alphanumeric() || c == '_')) {
+            res.push_str("proc_macro2::Ident");
+        } else {
+            res.push_str(pat);
+        }
+        rest = &rest[i + pat.len()..];
+    }
+    res.push_str(rest);
+    out = res;
+    out
+}
+
 struct StopRule {
     pat: String,
     aux: Vec<(String, usize)>,
@@ -164,6 +185,7 @@ impl<'a> MirVisitor for Collector<'a> {
 
 impl Dump {
     fn stopped(&self, name: &str) -> Option<&StopRule> {
+        let name = norm_name(name);
         self.stop.iter().find(|r| glob(r.pat.as_bytes(), name.as_bytes()))
     }
 
@@ -220,7 +242,26 @@ impl Dump {
                 _ => None,
             }
         }
-        let (Some(src), Some(dst)) = (pointee(from), pointee(to)) else { return };
+        let (Some(mut src), Some(mut dst)) = (pointee(from), pointee(to)) else { return };
+        // struct with unsized tail: descend into the last field on both sides
+        loop {
+            match (src.kind(), dst.kind()) {
+                (TyKind::RigidTy(RigidTy::Adt(d1, a1)), TyKind::RigidTy(RigidTy::Adt(d2, a2))) if d1.kind() == AdtKind::Struct && d2.kind() == AdtKind::Struct => {
+                    let f1 = d1.variants()[0].fields();
+                    let f2 = d2.variants()[0].fields();
+                    match (f1.last(), f2.last()) {
+                        (Some(x), Some(y)) => {
+                            src = x.ty_with_args(&a1);
+                            dst = y.ty_with_args(&a2);
+                        }
+                        _ => return,
+                    }
+                }
+                _ => break,
+            }
+        }
+        self.note_ty(src);
+        self.note_ty(dst);
         if let TyKind::RigidTy(RigidTy::Dynamic(..)) = dst.kind() {
             let key = format!("{}:{}", src.to_index(), dst.to_index());
             if self.vtables.contains_key(&key) {
@@ -228,6 +269,11 @@ impl Dump {
             }
             let mut methods = vec![];
             if let Some(principal) = dst.kind().trait_principal() {
+                let dbg = format!("{:?}", principal);
+                if dbg.contains("Bound") && !principal.bound_vars.is_empty() || dbg.contains("ReBound") {
+                    self.vtables.insert(key, json!({"src": src.to_index(), "dst": dst.to_index(), "entries": [], "skipped": true}));
+                    return;
+                }
                 let tr = principal.with_self_ty(src).skip_binder();
                 for e in tr.vtable_entries() {
                     match e {
@@ -505,7 +551,7 @@ impl Dump {
         rec.insert("ty".into(), json!(fty.to_index()));
         rec.insert("abi".into(), json!(Self::fn_abi_str(fty)));
         let stop_aux: Option<Vec<(String, usize)>> = self.stopped(&name).map(|r| r.aux.clone());
-        let can_body = inst.has_body() && matches!(inst.kind, InstanceKind::Item | InstanceKind::Shim | InstanceKind::Intrinsic);
+        let can_body = (inst.has_body() && matches!(inst.kind, InstanceKind::Item | InstanceKind::Intrinsic)) || matches!(inst.kind, InstanceKind::Shim);
         rec.insert("has_body".into(), json!(can_body));
         if let Some(aux) = stop_aux {
             rec.insert("stopped".into(), json!(true));
